@@ -70,6 +70,15 @@ func buildProtoc(sc string) error {
 	return os.Setenv("PATH", bin+string(os.PathListSeparator)+os.Getenv("PATH"))
 }
 
+func syntaxError(msg string) bool {
+	for _, p := range []string{"expected ", "reached end of input", "invalid character", "need space", "unterminated", "end-of-file"} {
+		if strings.HasPrefix(msg, p) {
+			return true
+		}
+	}
+	return false
+}
+
 func headS(s string, n int) string {
 	if len(s) > n {
 		return s[:n] + "…"
@@ -208,7 +217,8 @@ func judge(run *vc.Run, d *pipeline.Design, verbose bool) {
 			say("%s is NOT well-formed proto3: %v", rel, err)
 			shape := ""
 			var pe *protostub.Error
-			if errors.As(err, &pe) {
+			if errors.As(err, &pe) && syntaxError(msg) {
+				// a syntax error says little by itself: the shape of the offending line tells the constructs apart
 				shape = " @ " + lineShape(w.Protos[rel], pe.Line)
 			}
 			run.Violation("proto-malformed:"+normParseMsg(msg)+shape, fmt.Sprintf("accepted design, generated %s is not well-formed proto3: %s", filepath.Base(rel), err), w)
